@@ -10,6 +10,7 @@ import Genql.Model.Scan
 import Genql.Model.Sanitize
 import Genql.Model.Codec
 import Genql.Model.Async
+import Genql.Model.Selector
 open Lean Genql
 
 abbrev V := Val Float
@@ -297,6 +298,10 @@ def handle (j : Json) : Json :=
         pure (Json.mkObj [("id", id), ("r", "ok"), ("hex", Json.str (Codec.hexEncS bs)),
           ("base32", Json.str (Codec.b32EncS bs)), ("base64", Json.str (Codec.b64uEncS bs)),
           ("dec32", dec "d32" Codec.b32DecS), ("dec64", dec "d64" Codec.b64uDecS), ("dechex", dec "dhex" Codec.hexDecS)])
+    | "reader" => do
+      let doc ← decVal (← j.getObjVal? "doc")
+      let sel ← (← j.getObjVal? "selector").getStr?
+      pure (outcome id (Sel.execReader doc sel))
     | "async" => do
       let o ← asyncOp j
       pure (o.setObjVal! "id" id)
